@@ -114,7 +114,61 @@ def attach_sources(node, rules, has_git):
     node["has_git"] = bool(has_git or rules.get("ex"))
 
 
+def eff(node):
+    """what the walker sees with --follow: a link to a directory is a directory with the target's content (and rule
+       files), a link to a file is a file"""
+    if node["kind"] == "ld":
+        t = node["target"]
+        return dict(name=node["name"], kind="d", kids=t["kids"], rules=t["rules"], has_git=t["has_git"])
+    if node["kind"] == "lf":
+        return dict(name=node["name"], kind="f")
+    return node
+
+
+def add_links(rng, root):
+    """insert 1-2 symbolic links (to a directory or a file of the same root) into directories of the tree; a link to a
+       directory points to a subtree that contains no link and is not an ancestor of the link, so nothing is cyclic"""
+    dirs = []
+
+    def walk(n, comps, ancs):
+        dirs.append((comps, n, ancs))
+        for k in n["kids"]:
+            if k["kind"] == "d" and k["name"] not in (".git",):
+                walk(k, comps + [k["name"]], ancs + [n])
+    walk(root, [], [])
+    made = 0
+    for _ in range(rng.randint(1, 2)):
+        hc, host, hanc = rng.choice(dirs)
+        cands = [(tc, t) for tc, t, _ in dirs if t is not host and all(t is not a for a in hanc) and not t.get("haslink") and tc]
+        name = rng.choice(["build", "lnk", "l.rs", "x.rs", ".hl", "d"])
+        if any(k["name"] == name for k in host["kids"]):
+            continue
+        rel_up = [".."] * len(hc)
+        if cands and rng.random() < 0.75:
+            tc, t = rng.choice(cands)
+            host["kids"].append(dict(name=name, kind="ld", target=t, target_rel="/".join(rel_up + tc)))
+            if rng.random() < 0.4 and not name.endswith("."):
+                # a directory-only rule naming the link, in one of the host's rule files
+                rules = {k: list(v) for k, v in host["rules"].items()}
+                rules[rng.choice(["rg", "ig", "gi"])].append(dict(neg=rng.random() < 0.2, dironly=True, anch=False, name=name))
+                attach_sources(host, rules, host["has_git"])
+        else:
+            files = [(fc, k) for fc, d, _ in dirs for k in d["kids"] if k["kind"] == "f" and "content" not in k for fc in [fc]]
+            if not files:
+                continue
+            fc, k = rng.choice(files)
+            host["kids"].append(dict(name=name, kind="lf", target_rel="/".join(rel_up + fc + [k["name"]])))
+        host["haslink"] = True
+        for a in hanc:
+            a["haslink"] = True
+        made += 1
+    return made
+
+
 def materialise(path, node):
+    if node["kind"] in ("ld", "lf"):
+        os.symlink(node["target_rel"], path)
+        return
     if node["kind"] == "f":
         with open(path, "w") as f:
             f.write(node.get("content", ""))
@@ -181,6 +235,18 @@ def gen_case(rng, idx):
     c["global"] = gen_rules(rng, 0.35, RULE_NAMES)
     c["max_depth"] = rng.choice([None, None, None, None, 0, 1, 2, 3])
     c["threads"] = rng.choice([1, 1, 3])
+    # a share of the cases follows symbolic links (-L): links to directories and files inside the first root
+    c["follow"] = False
+    if rng.random() < 0.3:
+        if add_links(rng, roots[0]):
+            c["follow"] = True
+            c["threads"] = rng.choice([1, 3, 3])
+            # make the interesting combinations frequent: a selection by type / glob, a dir-only rule naming a link
+            if not c["types"] and not c["globs"] and rng.random() < 0.6:
+                if rng.random() < 0.5:
+                    c["types"] = [(rng.choice(EXTS), False)]
+                else:
+                    c["globs"] = [dict(neg=False, dironly=False, anch=False, name=rng.choice(["x.rs", "a.rs", "a", "y.py"]))]
     return c
 
 
@@ -201,6 +267,7 @@ def join(d, n):
 
 
 def vtnode(path, node):
+    node = eff(node)
     if node["kind"] == "f":
         return vlist(["0", vbytes(node["name"])])
     return vlist(["1", vbytes(node["name"]), vdirinfo(path, node),
@@ -278,6 +345,8 @@ def rg_args(c, base):
         a += ["--ignore-file", os.path.join(base, "igf%d" % i)]
     if c["max_depth"] is not None:
         a += ["--max-depth", str(c["max_depth"])]
+    if c.get("follow"):
+        a.append("-L")
     a += ["-j%d" % c["threads"]]
     for sp in c["spell"]:
         if sp is not None:
@@ -428,6 +497,7 @@ def oracle(c):
 
         def rec(node, chain, comps, depth, path):
             for k in node["kids"]:
+                k = eff(k)
                 if c["max_depth"] is not None and depth > c["max_depth"]:
                     continue
                 cc = comps + [k["name"]]
@@ -495,6 +565,12 @@ def features(c):
         if n["has_git"]:
             f.append("depth%d:.git" % depth)
         for k in n["kids"]:
+            if k["kind"] in ("ld", "lf"):
+                f.append("symlink-to-" + ("dir" if k["kind"] == "ld" else "file") + " (-L)")
+                if k["kind"] == "ld" and (c["types"] or any(not r["neg"] for r in c["globs"])):
+                    f.append("symlinked-dir under -t/-g selection")
+                if k["kind"] == "ld" and any(r["dironly"] and r["name"] == k["name"] for s in SRC for r in n["rules"][s]):
+                    f.append("symlinked-dir named by a dir-only rule")
             if k["kind"] == "d" and "rules" in k:
                 rec(k, depth + 1)
     for r in c["roots"]:
@@ -573,7 +649,8 @@ def lib_line_pair(c, base, o):
                    vlist([vbytes(os.path.join(base, "igf%d" % i)) for i in range(len(c["ignore_files"]))]),
                    vlist(globs), vlist([vlist([vbytes(e), vbool(n)]) for e, n in c["types"]]),
                    vopt(None if c["max_depth"] is None else str(c["max_depth"])),
-                   vlist([vbytes("./" if sp is None else sp.replace("ABS", base)) for sp in c["spell"]])])
+                   vlist([vbytes("./" if sp is None else sp.replace("ABS", base)) for sp in c["spell"]]),
+                   vbool(c.get("follow", False))])
     return mline, hline
 
 
